@@ -3,6 +3,7 @@ package cache
 // Read-only handles for the verification harness (scratch copy only; never in /repo).
 
 import (
+	"unsafe"
 	"reflect"
 	"sort"
 	"sync"
@@ -109,6 +110,10 @@ func VerifShardIndex(key CacheKey, shards int) int {
 
 // VerifDrainIntervalChan empties the janitor's interval channel (teardown only:
 // a notification goroutine blocked on it after stop() would otherwise outlive the run).
+// VerifDrainIntervalChan empties every channel the janitor owns (the interval-change channel, and
+// whatever channel a changed tree may have added) and returns how many values were waiting. A
+// notification goroutine blocked on such a channel after the janitor has gone is thereby released,
+// so that the simulation's bubble can end; what the values mean is judged elsewhere.
 func VerifDrainIntervalChan[M any](c Cache[M]) int {
 	var j *cacheJanitor[M]
 	switch x := c.(type) {
@@ -121,14 +126,21 @@ func VerifDrainIntervalChan[M any](c Cache[M]) int {
 	if j == nil {
 		return 0
 	}
-	for {
-		select {
-		case <-j.intervalChanged:
+	v := reflect.ValueOf(j).Elem()
+	for i := 0; i < v.NumField(); i++ {
+		f := v.Field(i)
+		if f.Kind() != reflect.Chan || f.IsNil() || f.Type().ChanDir()&reflect.RecvDir == 0 {
+			continue
+		}
+		ch := reflect.NewAt(f.Type(), unsafe.Pointer(f.UnsafeAddr())).Elem()
+		for {
+			if _, ok := ch.TryRecv(); !ok {
+				break
+			}
 			n++
-		default:
-			return n
 		}
 	}
+	return n
 }
 
 type VerifEntryInfo struct {
